@@ -327,3 +327,35 @@ def eof_trailing_space_case(before_src: str, op: dict) -> bool:
             n = v[-1]
     last = len(before_src.split('\n'))
     return getattr(n, 'end_lineno', None) == last
+
+
+def continuation_semicolon_case(before_src: str, op: dict) -> bool:
+    """the known-finding class: a statement-level put / delete whose (last) target statement is followed by a line continuation and a ';' on the next
+    physical line ('a \\<newline>  ;'), made with an explicit trailing-trivia option (a kind other than the default 'line', or a '+N' space part)"""
+    tr = (op.get('options') or {}).get('trivia', True)
+    if isinstance(tr, list):
+        tr = tuple(tr)
+    trail = tr[-1] if isinstance(tr, tuple) and tr else None
+    if not isinstance(trail, str):
+        return False
+    try:
+        n = node_at(ast.parse(before_src), op['path'])
+    except Exception:
+        return False
+    if op['kind'] in ('put_slice_stmts', 'insert_stmt', 'append_stmt', 'prepend_stmt', 'view_set', 'view_del', 'attr_assign', 'attr_del'):
+        v = getattr(n, op.get('field', ''), None)
+        if isinstance(v, list) and v and isinstance(v[0], ast.AST):
+            cands = v
+        else:
+            cands = [n]
+    else:
+        cands = [n]
+    lines = before_src.split('\n')
+    for c in cands:
+        el, ec = getattr(c, 'end_lineno', None), getattr(c, 'end_col_offset', None)
+        if el is None or el >= len(lines):
+            continue
+        rest = lines[el - 1].encode()[ec:].decode().strip()
+        if rest == '\\' and lines[el].lstrip().startswith(';'):
+            return True
+    return False
